@@ -63,7 +63,13 @@ func runAdsUDPRelay(col *trace.Collector, seed int64) (viol []Violation, inconcl
 		}
 	}
 	for round, s := range []string{"u1", "u2"} {
-		col.SetDelayFor("wire_send", relayName, 40*time.Millisecond) // only the relay's writers are slow
+		// only the relay's writers are slow: 40 ms per message in the first round; in the second round 450 ms, longer
+		// than the route-update period, so whatever is flooded meanwhile waits that long for the link
+		pause := 40 * time.Millisecond
+		if round == 1 {
+			pause = 450 * time.Millisecond
+		}
+		col.SetDelayFor("wire_send", relayName, pause)
 		time.Sleep(100 * time.Millisecond)
 		_ = pcs[s].Close()
 		time.Sleep(1200 * time.Millisecond) // the owner keeps advertising its other services meanwhile
